@@ -549,8 +549,11 @@ def value_oracles(roots, rng, drv_reqs, meta):
         e1, e2, e3 = (fd == twin), (twin == fd), (fd == fz.unfreeze(fd))
       except Exception as e:
         e1 = e2 = e3 = 'raised ' + type(e).__name__
-      if not (e1 is True and e2 is True and e3 is True):
-        bad.append(('eq-order-dependent', f'equal contents {json.dumps(c)} in another insertion order compare {e1}/{e2}/{e3}'))
+      if not (e1 is True and e2 is True):
+        bad.append(('eq-order-dependent', f'equal contents {json.dumps(c)} in another insertion order compare {e1}/{e2}'))
+      # FrozenDict == plain dict with the same contents: what Mapping.__eq__ gives and the model says; not judged as a property failure
+      drv_reqs.append(('eq', [c, strip(dump_impl(fz.unfreeze(fd)))]))
+      meta.append(('eq', [c, 'unfreeze(self)'], e3))
       h1, h2 = safe_hash(fd), safe_hash(twin)
       if h1 != h2:
         bad.append(('hash-order-dependent', f'equal contents {json.dumps(c)} in another insertion order hash {h1} vs {h2}'))
@@ -571,8 +574,9 @@ def value_oracles(roots, rng, drv_reqs, meta):
       continue
     if not ok:
       bad.append(('flatten-roundtrip', f'tree_unflatten(tree_flatten(fd)) differs from fd = {json.dumps(c)}'))
-    if not same:
-      bad.append(('flatten-order-dependent', f'equal FrozenDicts {json.dumps(c)} built in different orders flatten differently'))
+    # equal FrozenDicts built in different orders flatten identically (theorem flatten_order_independent): compared as model behaviour
+    drv_reqs.append(('roundtrip', [c]))
+    meta.append(('flatten_same', c, same))
     drv_reqs.append(('flatten', [c]))
     meta.append(('flatten', c, (lc, paths)))
     drv_reqs.append(('roundtrip', [c]))
@@ -598,7 +602,7 @@ def value_oracles(roots, rng, drv_reqs, meta):
     except Exception as ex:
       e = 'raised ' + type(ex).__name__
     want = _content_eq(ca, cb)
-    if e is not want:
+    if e is not want and isinstance(a, FrozenDict) and isinstance(b, FrozenDict):
       bad.append(('eq-wrong', f'{json.dumps(ca)} == {json.dumps(cb)} gives {e}, contents equal = {want}'))
     drv_reqs.append(('eq', [ca, cb]))
     meta.append(('eq', [ca, cb], e))
@@ -666,6 +670,9 @@ def check_value_meta(meta, outs):
     elif kind == 'roundtrip':
       if m[0] != 'ok' or strip(m[1]) != c:
         out.append(('model-roundtrip', f'model unflatten(flatten(t)) differs from t = {json.dumps(c)}: {m}'))
+    elif kind == 'flatten_same':
+      if imp is not True:
+        out.append(('model-flatten-order', f'two FrozenDicts with contents {json.dumps(c)} built in different insertion orders flatten to different leaves/treedefs; the model (flatten_order_independent) says they flatten identically'))
     elif kind == 'eq':
       if m != ('ok', imp):
         out.append(('model-eq', f'{json.dumps(c[0])} == {json.dumps(c[1])}: implementation {imp}, model {m}'))
@@ -777,6 +784,48 @@ def _shrunk(case, what):
   if m:
     return {'kind': 'history', 'ops': case['ops'][: int(m.group(1)) + 1]}
   return case
+
+
+EXH_BASE = [
+  ['newDict'], ['newLeaf', {'a': 5}], ['newDict'], ['newLeaf', {'o': 8}],
+  ['setKey', 2, 'z', 1], ['setKey', 2, 'l', 3], ['setKey', 0, 'a', 2], ['setKey', 0, 'b', 1], ['setKey', 0, 'c', 2],
+  ['freeze', 0, 'fn'], ['setKey', 0, 'f', 4],
+]  # 0: src = {'a': inner, 'b': 5, 'c': inner, 'f': fd}, 2: inner = {'z': 5, 'l': [8,'l']}, 4: fd = freeze({'a': inner, 'b': 5, 'c': inner})
+
+
+def _catalogue(roots, hs):
+  """every operation of the alphabet on the handles `hs` (API calls, and mutations with a leaf / a dict / a FrozenDict value)"""
+  out = []
+  for h in hs:
+    k = kind_of(roots[h])
+    if k == 'leaf':
+      continue
+    out += [['getitem', h, 'a'], ['getitem', h, 'zz'], ['items', h, 'fn'], ['freeze', h, 'ctor'], ['unfreeze', h, 'fn'],
+            ['copy', h, None, 'fn'], ['copy', h, 0, 'fn'], ['copy', h, 4, 'method'], ['pop', h, 'a', 'method'], ['pop', h, 'zz', 'fn'],
+            ['treeMap', h], ['setKey', h, 'n', 1], ['setKey', h, 'a', 4], ['delKey', h, 'a']]
+    if k == 'frozen':
+      out.append(['pickle', h])
+    if k == 'dict' and h != 2 and not reaches(roots[2], roots[h]):
+      out.append(['setKey', h, 'a', 2])
+  return out
+
+
+def exhaustive_histories(depth):
+  """all continuations of EXH_BASE by `depth` operations of the alphabet (handles: source, nested source dict, the FrozenDict, and the
+  first two values returned by the previous operation)"""
+  def grow(prefix, d):
+    hr = HistoryRun()
+    for op in prefix:
+      hr.step(op)
+    if d == 0:
+      return [prefix]
+    new = [i for i in range(5, len(hr.roots)) if kind_of(hr.roots[i]) != 'leaf'][-2:]
+    out = []
+    for op in _catalogue(hr.roots, [0, 2, 4] + new):
+      out += grow(prefix + [op], d - 1)
+    return out
+
+  return grow(list(EXH_BASE), depth)
 
 
 # ------------------------------------------------------------------------------------------------
@@ -1126,7 +1175,18 @@ def run(ctx):
   for fn, obj in load_corpus('C15'):
     ctx.corpus_replayed += 1
     _run_case(ctx, drv, obj)
-  n_hist = 3000 if not thorough else 40000
+  exh = exhaustive_histories(2)
+  if thorough:
+    ex3 = exhaustive_histories(3)
+    exh += ctx.rng.sample(ex3, min(len(ex3), 12000))
+  for i in range(0, len(exh), 400):
+    run_histories(ctx, drv, 0, replay_ops=exh[i : i + 400])
+  ctx.extra['exhaustive_scope'] = (
+    f'all {len(exhaustive_histories(2))} two-operation continuations of a fixed nested world (source with an aliased nested dict, a FrozenDict of it, '
+    'the FrozenDict stored back into the source) over the 15-16 operation alphabet per handle' + ('; plus 12000 sampled three-operation continuations' if thorough else '')
+  )
+  ctx.count('exhaustive_histories', 'depth2+', len(exh))
+  n_hist = 2500 if not thorough else 40000
   err = steps = 0
   for i in range(0, n_hist, 400):
     e, s = run_histories(ctx, drv, min(400, n_hist - i))
